@@ -25,6 +25,7 @@ CLAIM = dict(
 W_DEF = "H def 6 0;export 0 7"
 W_DEDUP = "H reg 4;inst 0 0;imp 17 6"
 W_UNWRAP = "H reg 4;inst 0 0;imp 28 1"
+W_SHARED = "H imp 14 3;imp 13 8;imp 29 3"
 W_DEPLOW = "H reg 11;reg 10;inst 1 0;alias 0 19;inst 0 0;setarg 2 30 1;inst 0 0"
 
 PROPOSED_KNOWN = [
@@ -41,10 +42,16 @@ PROPOSED_KNOWN = [
          text="consumers of u:s/types@1.0.0 and @1.1.0: when `u:s/api@1.1.0` (which `use`s types) happens to be imported before "
               "the canonical `u:s/types@1.1.0`, the shared import is emitted as `u:s/types@1.0.0` (the lower version); with "
               "another aggregation order it is `u:s/types@1.1.0`"),
+    dict(property=PID, id="C03-merge-mutates-shared-interface", status="known", witness=W_SHARED,
+         signature="TypeAggregator::merge_interface merges in place into the aggregated interface; two imports whose kinds are the SAME "
+                   "interface (by identity) share that aggregated interface, so merging one of them with a semver-compatible import "
+                   "also enlarges the other",
+         text="imports `x:y/z@1.2.0` and `k` of one interface {x,y}, plus `x:y/z@1.0.0` {p}: the output requires `k` to export p, x, y "
+              "although nothing asked `k` for p"),
 ]
 
 CORPUS = [
-    W_DEF, W_DEDUP, W_UNWRAP, W_DEPLOW,
+    W_DEF, W_DEDUP, W_UNWRAP, W_DEPLOW, W_SHARED,
     # three versions on one track + another track + unversioned
     "H reg 4;reg 5;reg 7;reg 6;inst 0 0;inst 1 0;inst 2 0;inst 3 0",
     "H reg 7;reg 4;inst 0 0;inst 1 0;imp 11 3;export 2 22",
@@ -108,8 +115,7 @@ def check_row(row, u):
         real = im.get(m + ".enc0", "")
         oc = ec.outcome_class(real)
         if oc == "PANIC":
-            ids = ["C03-explicit-import-merge-unwrap"] if ("unwrap()" in real and "cannot be merged" in real) or \
-                ("unwrap()" in real and "mismatched" in real) else []
+            ids = ["C03-explicit-import-merge-unwrap"] if ec.is_explicit_merge_unwrap(real) else []
             fails.append((m, "encode panicked instead of reporting an import conflict: " + real[:160], ids)); continue
         if oc != "ok" or m + ".specimp" not in mo:
             continue
@@ -141,9 +147,23 @@ def check_row(row, u):
         for e in filter(None, mo.get("needs", "").split(";")):
             n, ex = e.split("|", 1)
             needs.setdefault(n, set()).update(x for x in ex.split("+") if x)
+        # kind ids behind every canonical import name (from the graph's own listing)
+        kids = {}
+        for e in filter(None, im.get("api", "").split(";")):
+            nm0, _, kid0, _ = e.split("|")
+            nm0 = ec.dec_name(nm0)
+            kids.setdefault(canon.get(nm0, nm0), set()).add(kid0)
+        real_ex = {n: ex for n, s, ex, dep in rimps if s == "instance" and ex is not None}
         for n, s, ex, dep in rimps:
             if s == "instance" and not dep and n in needs and ex is not None and ex != needs[n] and not mm:
-                why.append(f"instance import `{n}` exports {sorted(ex)}, the sharers need exactly {sorted(needs[n])}")
+                # known: the same interface (by identity, same kind id) is imported under another name too, and THAT import was
+                # merged with a semver-compatible one: the merge mutates the shared interface, so both imports grow
+                twins = [m for m in needs if m != n and kids.get(m, set()) & kids.get(n, set()) and real_ex.get(m) == ex
+                         and ex >= needs[n] | needs[m]]
+                if twins and ex > needs[n]:
+                    ids_imp.append("C03-merge-mutates-shared-interface")
+                else:
+                    why.append(f"instance import `{n}` exports {sorted(ex)}, the sharers need exactly {sorted(needs[n])}")
         # agreement with CompositionGraph::imports() (canonicalised with the specification's canonical-name function)
         api = set()
         for e in filter(None, im.get("api", "").split(";")):
@@ -201,6 +221,7 @@ def run(res, tier, seed, replay):
             if (canon or shared) and sig[0]:
                 shapes.add(sig)
         for m, why, ids in check_row(row, u):
+            row.setdefault("known_ids", set()).update(ids)
             if ids and all(i in known_ok for i in ids):
                 for i in ids:
                     known_hits.setdefault(i, []).append(row)
@@ -231,6 +252,8 @@ def run(res, tier, seed, replay):
             perm_compared += 1
             if len(sigs) > 1:
                 kinds = {"C03-" + ec.dedup_kind(a, b) for r in members for a, b in ec.dedup_mismatches(r, m)}
+                kinds |= {i for r in members for i in r.get("known_ids", ()) if i != "C03-def-extra-export-name"}
+                tainted = tainted or bool(kinds)
                 if tainted and kinds and kinds <= known_ok:
                     for k in kinds:
                         known_hits.setdefault(k, []).append(members[0])
